@@ -10,8 +10,22 @@
 //   seq:alphabet=A,len=n,idx=i      every sequence over A letters of length n (base-A digits of i)
 //   perm:len=n,idx=i                every permutation of 0..n-1 (Lehmer code of i)
 //   sorted:alphabet=K,len=n,idx=i   every non-decreasing sequence over K letters (lexicographic)
-//   range:T=<type>                  Range/Count/step for all (begin,end,step) in a cube
+//   range:T=<type>                  Range/Count/step for all (begin,end,step) in a cube: range-for,
+//                                   size/empty/front/back/[], iterator + - difference, postfix and
+//                                   prefix ++ / --, iterator [] and ->, cbegin/cend, stepped ranges
+//                                   walked with prefix AND postfix ++
+//   range:T=<type>@<base>           the same cube shifted next to 2^31 / 2^32 / -2^31 / the top of the
+//                                   type (uint, OpaqueId<unsigned>, size_t, OpaqueId<size_t>, long long,
+//                                   short, signed char, int): truncation through narrower types
+//   range-wide:T=<type>,w=<width>   ranges whose SIZE is 2^31, 2^32-2, 2^32, 2^33+5 (+0..3): size, back,
+//                                   end-begin, [] and iterator +- at offsets {0,1,n/2,n-2,n-1}; no iteration
 //   int:<helper>                    ceil_div, LocalWorkCalculator, ipow, eumod, signum, clamp, ...
+//   int:eumod-inexact               eumod with tiny / ulp-adjacent numerators and non-dyadic denominators
+//                                   (double and float): 0 <= r < d and r within one ulp(d) of the exact
+//                                   remainder
+//   int:signum-clamp-minmax         ... + floating min/max on NaN/inf/denormals/signed zeros vs
+//                                   std::fmin/fmax (bits), identity of the object returned by the
+//                                   reference-returning integer min/max and by clamp vs std::
 //   span:n=<n>                      Span first/last/subspan for all (offset,count)
 //   hyperslab:N=<N>,shape=<idx>     HyperslabIndexer / InverseIndexer bijection, all shapes <= 4^N
 //   ragged:N=<N>,shape=<idx>        RaggedRightIndexer / InverseIndexer bijection
@@ -24,6 +38,7 @@
 #include <climits>
 #include <cmath>
 #include <cstdint>
+#include <cstring>
 #include <functional>
 #include <limits>
 #include <numeric>
@@ -699,6 +714,7 @@ enum class Color : unsigned int
     size_
 };
 using TestId = OpaqueId<struct C18Tag_, unsigned int>;
+using TestId64 = OpaqueId<struct C18Tag64_, std::size_t>;
 
 template<class T>
 struct RangeConv
@@ -738,14 +754,32 @@ static std::vector<long long> collect(Iterable&& r, size_t cap)
     return out;
 }
 
+//! value of any range element type as long long
+template<class V>
+static long long any_ll(V v)
+{
+    return RangeConv<V>::to_ll(v);
+}
+
+// (b,e) run over the cube [lo,hi]^2; steps over [slo,shi] (default: the same interval for signed
+// types, [1,hi] for unsigned ones; slo > shi = no stepped ranges, used where begin/end sit at the
+// very top of the type and a step past `end` would overflow).  The SHIFTED cubes (tname "T@base")
+// put begin/end next to 2^31, 2^32 or the top of the type, where a 32-bit (or otherwise too
+// narrow) difference_type / temporary inside the iterators is no longer the identity.
 template<class T, bool Signed>
-static void check_range_type(vf::Run& R, char const* tname, long long lo, long long hi)
+static void check_range_type(vf::Run& R, char const* tname, long long lo, long long hi,
+                             long long slo = LLONG_MIN, long long shi = LLONG_MIN)
 {
     std::string cid = fmt("range:T=%s", tname);
     if (!R.want(cid))
         return;
     R.begin_case(cid, 60);
     using C = RangeConv<T>;
+    if (slo == LLONG_MIN)
+    {
+        slo = Signed ? lo : 1;
+        shi = hi;
+    }
     size_t const cap = size_t(hi - lo) + 8;
     for (long long b = lo; b <= hi; ++b)
         for (long long e = lo; e <= hi; ++e)
@@ -778,6 +812,58 @@ static void check_range_type(vf::Run& R, char const* tname, long long lo, long l
                                 ll_str(got).c_str(), (long long)r.size()));
             R.count("evaluations");
             R.nontrivial(vf::hash_mix(vf::hash_str(tname), vf::hash_mix(b - lo, e - lo)));
+            // iterator operators that range-for never uses: postfix --/++ (must return the OLD
+            // position), prefix -- (returns *this), iterator operator[] / operator->, cbegin/cend
+            {
+                using SZ = typename Range<T>::size_type;
+                bool okb = r.cbegin() == r.begin() && r.cend() == r.end()
+                           && C::to_ll(*r.cbegin()) == b && C::to_ll(*r.cend()) == e
+                           && C::to_ll(*(r.begin().operator->())) == b;
+                {
+                    auto it = r.end();
+                    long long v = e;
+                    while (it != r.begin() && v >= b)
+                    {
+                        auto old = it--;
+                        okb = okb && C::to_ll(*old) == v && C::to_ll(*it) == v - 1;
+                        --v;
+                    }
+                    okb = okb && v == b && it == r.begin();
+                }
+                {
+                    auto it = r.end();
+                    long long v = e;
+                    while (it != r.begin() && v >= b)
+                    {
+                        auto& ref = --it;
+                        --v;
+                        okb = okb && &ref == &it && C::to_ll(*it) == v;
+                    }
+                    okb = okb && v == b;
+                }
+                {
+                    auto it = r.begin();
+                    long long v = b;
+                    while (it != r.end() && v <= e)
+                    {
+                        auto old = it++;
+                        okb = okb && C::to_ll(*old) == v && C::to_ll(*it) == v + 1;
+                        ++v;
+                    }
+                    okb = okb && v == e && it == r.end();
+                }
+                // *end() may be dereferenced (documented), so [size] is the end value
+                for (long long i = 0; i <= e - b && okb; ++i)
+                    okb = C::to_ll(r.begin()[static_cast<SZ>(i)]) == b + i;
+                TAG("range:iterator-operators");
+                if (!okb)
+                    R.violation("range:iterator-operators", cid,
+                                fmt("range<%s>(%lld,%lld): postfix/prefix decrement, postfix "
+                                    "increment, iterator operator[], operator-> or cbegin/cend "
+                                    "disagree with the counting reference",
+                                    tname, b, e));
+                R.count("evaluations");
+            }
             if (b == 0)
             {
                 // one-argument form starts at the type's zero
@@ -788,7 +874,7 @@ static void check_range_type(vf::Run& R, char const* tname, long long lo, long l
                 R.count("evaluations");
             }
             // stepped
-            for (long long s = (Signed ? lo : 1); s <= hi; ++s)
+            for (long long s = slo; s <= shi; ++s)
             {
                 if (s == 0)
                     continue;  // never terminates: outside any sensible precondition
@@ -797,6 +883,35 @@ static void check_range_type(vf::Run& R, char const* tname, long long lo, long l
                     gots = collect<T>(r.step(static_cast<int>(s)), cap);
                 else
                     gots = collect<T>(r.step(static_cast<unsigned int>(s)), cap);
+                // postfix ++ of the stepped iterator == (copy, prefix ++): same visiting
+                // sequence as range-for, returns the old position, advances by the step.
+                // (step_range_iter::operator+ cannot be checked: it does not compile, see
+                // proposed_findings/C18.json)
+                {
+                    auto walk = [&](auto sr) {
+                        std::vector<long long> seq;
+                        bool okp = true;
+                        auto it = sr.begin();
+                        while (it != sr.end() && seq.size() < cap)
+                        {
+                            auto old = it++;
+                            seq.push_back(any_ll(*old));
+                            okp = okp && any_ll(*it) == seq.back() + s;
+                        }
+                        return okp && seq == gots;
+                    };
+                    bool okp;
+                    if constexpr (Signed)
+                        okp = walk(r.step(static_cast<int>(s)));
+                    else
+                        okp = walk(r.step(static_cast<unsigned int>(s)));
+                    if (!okp && (gots.empty() || gots.back() != LLONG_MIN))
+                        R.violation("range:step-postfix-increment", cid,
+                                    fmt("range<%s>(%lld,%lld).step(%lld): walking with it++ does not "
+                                        "return the old position / advance by the step / visit %s",
+                                        tname, b, e, s, ll_str(gots).c_str()));
+                    R.count("evaluations");
+                }
                 std::vector<long long> wants;
                 if (s > 0)
                 {
@@ -837,6 +952,56 @@ static void check_range_type(vf::Run& R, char const* tname, long long lo, long l
                 }
                 R.count("evaluations");
             }
+        }
+    R.end_case();
+}
+
+// WIDE ranges (no iteration): end - begin itself is >= 2^31 resp. 2^32, so a difference or
+// offset that passes through a 32-bit type inside Range / range_iter is truncated (for the
+// shifted cubes above a truncated difference is still right modulo 2^32).
+// with_diff = false for 32-bit unsigned counters: their difference_type (int) cannot represent
+// such a distance, so `end - begin` is outside any sensible precondition there.
+template<class T>
+static void check_range_wide(vf::Run& R, char const* tname, unsigned long long width, bool with_diff)
+{
+    std::string cid = fmt("range-wide:T=%s,w=%llu", tname, width);
+    if (!R.want(cid))
+        return;
+    R.begin_case(cid, 60);
+    using C = RangeConv<T>;
+    using SZ = typename Range<T>::size_type;
+    using DT = typename Range<T>::const_iterator::difference_type;
+    bool const is_signed = std::is_signed<DT>::value && !std::is_unsigned<SZ>::value;
+    for (long long b = (is_signed ? -3 : 0); b <= 3; ++b)
+        for (long long j = 0; j <= 3; ++j)
+        {
+            unsigned long long const n = width + (unsigned long long)j;  // size
+            long long const e = b + (long long)n;
+            Range<T> r = range(C::from_ll(b), C::from_ll(e));
+            auto ull = [](T v) { return (unsigned long long)C::to_ll(v); };
+            auto mask = [](unsigned long long v) { return (unsigned long long)(SZ)v; };
+            bool ok = (unsigned long long)r.size() == n && !r.empty() && ull(r.front()) == mask(b)
+                      && ull(r.back()) == mask(e - 1) && ull(*r.end()) == mask(e);
+            if (with_diff)
+                ok = ok && (long long)(r.end() - r.begin()) == (long long)n
+                     && (long long)(r.begin() - r.end()) == -(long long)n;
+            for (unsigned long long i : {0ull, 1ull, n / 2, n - 2, n - 1})
+            {
+                ok = ok && ull(r[(SZ)i]) == mask(b + (long long)i)
+                     && ull(r.begin()[(SZ)i]) == mask(b + (long long)i);
+                if (with_diff)
+                    ok = ok && ull(*(r.begin() + (DT)i)) == mask(b + (long long)i)
+                         && ull(*(r.end() - (DT)(i + 1))) == mask(e - 1 - (long long)i);
+            }
+            TAG("range:wide");
+            if (!ok)
+                R.violation("range:wide", cid,
+                            fmt("range<%s>(%lld,%lld): size %llu (expected %llu), back %llu, "
+                                "end-begin / operator[] / iterator +- at offsets near the size "
+                                "disagree with exact arithmetic",
+                                tname, b, e, (unsigned long long)r.size(), n, ull(r.back())));
+            R.count("evaluations");
+            R.nontrivial(vf::hash_mix(vf::hash_str(cid), vf::hash_mix(b + 3, j)));
         }
     R.end_case();
 }
@@ -921,6 +1086,36 @@ static void part_ranges(vf::Run& R)
     check_range_type<std::size_t, false>(R, "size_t", 0, 2 * c);
     check_range_type<TestId, false>(R, "OpaqueId", 0, 2 * c);
     check_range_type<Color, false>(R, "enum", 0, (long long)Color::size_);
+    // shifted cubes: begin/end straddle the sign bit of 32-bit counters, 2^31 and 2^32 for the
+    // 64-bit ones, and sit at the top of the narrow types
+    {
+        long long const p31 = 1ll << 31, p32 = 1ll << 32;
+        long long const w = 2 * c;
+        check_range_type<unsigned int, false>(R, "uint@2^31", p31 - 3, p31 - 3 + w, 1, w);
+        check_range_type<TestId, false>(R, "OpaqueId@2^31", p31 - 3, p31 - 3 + w, 1, w);
+        check_range_type<std::size_t, false>(R, "size_t@2^31", p31 - 3, p31 - 3 + w, 1, w);
+        check_range_type<std::size_t, false>(R, "size_t@2^32", p32 - 3, p32 - 3 + w, 1, w);
+        check_range_type<TestId64, false>(R, "OpaqueId64", 0, w);
+        check_range_type<TestId64, false>(R, "OpaqueId64@2^31", p31 - 3, p31 - 3 + w, 1, w);
+        check_range_type<TestId64, false>(R, "OpaqueId64@2^32", p32 - 3, p32 - 3 + w, 1, w);
+        check_range_type<long long, true>(R, "longlong@2^31", p31 - 3, p31 - 3 + w, -c, c);
+        check_range_type<long long, true>(R, "longlong@2^32", p32 - 3, p32 - 3 + w, -c, c);
+        check_range_type<long long, true>(R, "longlong@-2^31", -p31 - 3, -p31 - 3 + w, -c, c);
+        // step(int) on Range<short>/<signed char> iterates in int (common_type): no overflow
+        check_range_type<short, true>(R, "short@top", SHRT_MAX - w, SHRT_MAX, -c, c);
+        check_range_type<signed char, true>(R, "schar@top", SCHAR_MAX - w, SCHAR_MAX, -c, c);
+        // int at the top of the type: a step past `end` would overflow -> no stepped ranges
+        check_range_type<int, true>(R, "int@top", (long long)INT_MAX - w, INT_MAX, 1, 0);
+        check_range_type<unsigned int, false>(R, "uint@top", (long long)UINT_MAX - w, UINT_MAX, 1, 0);
+        for (unsigned long long width : {1ull << 31, (1ull << 32) - 2, 1ull << 32, (1ull << 33) + 5})
+        {
+            check_range_wide<long long>(R, "longlong", width, true);
+            check_range_wide<std::size_t>(R, "size_t", width, true);
+            check_range_wide<TestId64>(R, "OpaqueId64", width, true);
+        }
+        check_range_wide<unsigned int>(R, "uint", 1ull << 31, false);
+        check_range_wide<TestId>(R, "OpaqueId", 1ull << 31, false);
+    }
     check_count_type<int>(R, "int", -c, c);
     check_count_type<long long>(R, "longlong", -c, c);
     check_count_type<unsigned int>(R, "uint", 0, 2 * c);
@@ -1128,6 +1323,85 @@ static void part_int_helpers(vf::Run& R)
         R.end_case();
     }
 
+    // eumod where the arithmetic is NOT exact: tiny negative numerators (the correction
+    // r += denom rounds), numerators one ulp either side of multiples of the denominator,
+    // non-dyadic denominators.  Claims (documented: "remapped so that it is between zero and the
+    // denominator"; callers: "Get the start value between [0, 1)", unit test "[0, 360)"):
+    //   0 <= r < d, and r == the exact Euclidean remainder up to one rounding (fmod is exact, the
+    //   correction is one addition: |r - exact| <= ulp(d)).
+    cid = "int:eumod-inexact";
+    if (R.want(cid))
+    {
+        R.begin_case(cid, 60);
+        auto run = [&](auto zero, char const* tn) {
+            using F = decltype(zero);
+            F const eps = std::numeric_limits<F>::epsilon();
+            F const den = std::numeric_limits<F>::denorm_min();
+            F const tiny = std::numeric_limits<F>::min();
+            std::vector<F> denoms = {F(1), F(0.1), F(6.283185307179586476925286766559L), F(360),
+                                     F(0.75), F(3)};
+            for (F d : denoms)
+            {
+                F const ulp_d = std::nextafter(d, std::numeric_limits<F>::infinity()) - d;
+                std::vector<F> numers = {den, tiny, F(1e-30), F(1e-20), F(1e-10), eps / 4, eps / 2,
+                                         eps, d * eps / 4, d * eps / 2, d * eps, d / 3, d / 2,
+                                         std::nextafter(d, F(0)), d};
+                for (int k = 1; k <= 3; ++k)
+                    for (int u = -2; u <= 2; ++u)
+                    {
+                        F v = F(k) * d;
+                        for (int j = 0; j < std::abs(u); ++j)
+                            v = std::nextafter(v, u > 0 ? std::numeric_limits<F>::infinity() : F(0));
+                        numers.push_back(v);
+                    }
+                for (F an : numers)
+                    for (int sgn : {1, -1})
+                    {
+                        F n = sgn * an;
+                        F got = eumod(n, d);
+                        // reference: remainder in long double (fmodl is exact; one rounding
+                        // at 2^-64 in the correction)
+                        long double rl = std::fmod((long double)n, (long double)d);
+                        if (rl < 0)
+                            rl += (long double)d;
+                        R.count("evaluations");
+                        if (n < 0 && std::fmod(n, d) < 0 && -std::fmod(n, d) < ulp_d)
+                            TAG("eumod:correction-rounds (remainder within an ulp of denom)");
+                        else if (n < 0)
+                            TAG("eumod:correction-exact-or-zero");
+                        else
+                            TAG("eumod:no-correction");
+                        F const f = std::fmod(n, d);  // exact by IEEE 754
+                        if (got == d && f < 0 && -(long double)f <= (long double)ulp_d)
+                        {
+                            // the exact remainder d - |fmod| lies within one ulp below d: the
+                            // correction r += d rounds up to d itself
+                            R.violation("int:eumod-returns-denominator[correction rounds up for a "
+                                        "tiny negative remainder]",
+                                        cid,
+                                        fmt("eumod<%s>(%.17g, %.17g) -> %.17g == denominator: not in "
+                                            "[0, denom) (exact remainder = denom - %.3Lg)",
+                                            tn, double(n), double(d), double(got), -(long double)f));
+                            continue;
+                        }
+                        if (!(got >= 0 && got < d))
+                            R.violation("int:eumod-out-of-range", cid,
+                                        fmt("eumod<%s>(%.17g, %.17g) -> %.17g outside [0, denom)", tn,
+                                            double(n), double(d), double(got)));
+                        else if (std::fabs((long double)got - rl) > (long double)ulp_d)
+                            R.violation("int:eumod-not-congruent", cid,
+                                        fmt("eumod<%s>(%.17g, %.17g) -> %.17g, exact remainder %.21Lg "
+                                            "(more than one ulp of the denominator apart)",
+                                            tn, double(n), double(d), double(got), rl));
+                    }
+            }
+        };
+        run(0.0, "double");
+        run(0.0f, "float");
+        R.nontrivial(vf::hash_str(cid));
+        R.end_case();
+    }
+
     cid = "int:signum-clamp-minmax";
     if (R.want(cid))
     {
@@ -1192,6 +1466,82 @@ static void part_int_helpers(vf::Run& R)
                 }
             }
         }
+        // floating min/max == std::fmin/fmax on specials (NaN in either position loses, +-inf,
+        // denormals), bit for bit; for a pair of zeros of opposite sign the C standard allows
+        // either zero, so only "a zero" is required there
+        {
+            std::vector<double> sv = dv;
+            sv.push_back(nan);
+            auto bits = [](auto v) {
+                std::conditional_t<sizeof(v) == 8, uint64_t, uint32_t> u;
+                std::memcpy(&u, &v, sizeof v);
+                return uint64_t(u);
+            };
+            auto same = [&](auto got, auto want, auto a, auto b) {
+                if (a == 0 && b == 0)
+                    return got == 0;
+                if (std::isnan(want))
+                    return bool(std::isnan(got));
+                return bits(got) == bits(want);
+            };
+            for (double a : sv)
+                for (double b : sv)
+                {
+                    volatile double va = a, vb = b;  // keep the references out of constant folding
+                    double wmin = std::fmin(va, vb), wmax = std::fmax(va, vb);
+                    float fa = float(a), fb = float(b);
+                    volatile float vfa = fa, vfb = fb;
+                    float wminf = std::fmin(vfa, vfb), wmaxf = std::fmax(vfa, vfb);
+                    if (!same(celeritas::min(a, b), wmin, a, b) || !same(celeritas::max(a, b), wmax, a, b)
+                        || !same(celeritas::min(fa, fb), wminf, fa, fb)
+                        || !same(celeritas::max(fa, fb), wmaxf, fa, fb))
+                        R.violation("int:minmax-special", cid,
+                                    fmt("min/max(%g,%g) -> %g/%g, fmin/fmax -> %g/%g", a, b,
+                                        celeritas::min(a, b), celeritas::max(a, b), wmin, wmax));
+                    if (std::isnan(a) != std::isnan(b))
+                        TAG("minmax:one-NaN");
+                    else if (a == 0 && b == 0 && std::signbit(a) != std::signbit(b))
+                        TAG("minmax:zeros-of-opposite-sign");
+                    R.count("evaluations", 4);
+                    // clamp on specials (NaN excluded: std::clamp has no defined result): value
+                    // bit for bit (a -0.0 equal to the bound 0.0 is returned itself) and the
+                    // SAME OBJECT as std::clamp (the functions return references)
+                    for (double c : sv)
+                    {
+                        if (std::isnan(a) || std::isnan(b) || std::isnan(c) || !(b <= c))
+                            continue;
+                        double const& g = celeritas::clamp(a, b, c);
+                        double const& w = std::clamp(a, b, c);
+                        if (&g != &w)
+                            R.violation("int:clamp-identity", cid,
+                                        fmt("clamp(%g,%g,%g) returns a reference to %s, std::clamp to %s",
+                                            a, b, c, &g == &a ? "v" : &g == &b ? "lo" : "hi",
+                                            &w == &a ? "v" : &w == &b ? "lo" : "hi"));
+                        R.count("evaluations");
+                    }
+                }
+        }
+        // integer min/max/clamp return `T const&`: which OBJECT is returned on ties must agree
+        // with std::min/std::max/std::clamp
+        for (int x = -2; x <= 2; ++x)
+            for (int y = -2; y <= 2; ++y)
+            {
+                int a = x, b = y;
+                if (&celeritas::min(a, b) != &std::min(a, b) || &celeritas::max(a, b) != &std::max(a, b))
+                    R.violation("int:minmax-identity", cid,
+                                fmt("min/max(%d,%d): returned object differs from std::min/std::max", x, y));
+                if (x == y)
+                    TAG("minmax:tie");
+                R.count("evaluations", 2);
+                for (int z = y; z <= 2; ++z)
+                {
+                    int c = z;
+                    if (&celeritas::clamp(a, b, c) != &std::clamp(a, b, c))
+                        R.violation("int:clamp-identity", cid,
+                                    fmt("clamp(%d,%d,%d): returned object differs from std::clamp", x, y, z));
+                    R.count("evaluations");
+                }
+            }
         if (!std::isnan(clamp_to_nonneg(nan)))
             R.violation("int:clamp_to_nonneg", cid, "NaN not propagated (documented)");
         if (std::signbit(negate(0.0)) || std::signbit(negate(-0.0)))
